@@ -436,8 +436,8 @@ def transferSiteRows : List (String × Nat × String × String) :=
    ("mu.c", 28, "nsync_mu_unlock_slow_", "ATM_STORE_REL"),        -- `waiting := 0`               (release)
    ("cv.c", 10, "nsync_cv_wait_with_deadline_generic", "ATM_LOAD_ACQ"),  -- the waiter's loop      (acquire)
    ("mu_wait.c", 1, "mu_try_acquire_after_timeout_or_cancel", "ATM_CAS_ACQ"),   -- takes lock + spinlock
-   ("mu_wait.c", 7, "mu_try_acquire_after_timeout_or_cancel", "ATM_STORE_REL"), -- plain stores to the word
-   ("mu_wait.c", 8, "mu_try_acquire_after_timeout_or_cancel", "ATM_STORE_REL")]
+   ("mu_wait.c", 8, "mu_try_acquire_after_timeout_or_cancel", "ATM_STORE_REL"), -- plain stores to the word (ordinals after the repair of F9: one more load at 2)
+   ("mu_wait.c", 9, "mu_try_acquire_after_timeout_or_cancel", "ATM_STORE_REL")]
 
 /-- Does a site table ((file, function, macro, location) in source order, as regenerated in
     `NsyncVerif.Gen.sites`) have these macros at these sites? -/
